@@ -126,4 +126,8 @@ for _pid in ("C01", "C06", "C10", "C14", "C15"):
 # C09 composed with the bundled store: Trigger on the real memrecordstore while older runs are written again
 PROPS["C09"]["families"] = PROPS["C09"]["families"] + ["trgmem"]
 PROPS["C09"]["explanation"] += "; Workflow.Trigger on the real memrecordstore interleaved with run-state writes to earlier runs"
+# C09 composed with the SQL store: Trigger takes ErrRecordNotFound from Latest for "no run yet"; a Latest whose result set breaks while
+# it is streamed must answer with an error (the sqlstore family's RF reads), else a second unfinished run is created
+PROPS["C09"]["families"] = PROPS["C09"]["families"] + ["sqlstore"]
+PROPS["C09"]["explanation"] += "; the SQL record store on the statement-level SQL engine, including reads whose result set breaks while it is streamed (Latest must answer with an error, not with not-found)"
 PROPS["C09"]["assumptions"] = PROPS["C09"]["assumptions"] + ADAPTER_ASSUME
